@@ -75,19 +75,9 @@ def run_suite(ctx, cases, backends=spine.ALL_BACKENDS, preconds=("ruiz",), name=
     text = "".join(c.text() for c in cases)
     nviol = 0
     byname = {c.name: c for c in cases}
-    # modelling gap (DESIGN 9): sparse::RuizEquilibration re-uses delta_lb_inv as cost-scaling scratch while that memory also
-    # is the loop guard's delta_iter_lb, so with scale_cost=true and finite lower bounds the sparse Ruiz loop may run a different
-    # number of iterations than the dense one (both scalings are valid changes of variables).  Such cases are compared with the
-    # dense model only on the dense back end; the oracles still run on every back end.
-    def sparse_gap(c):
-        st = dict(c.settings)
-        if st.get("preconditioner_scale_cost", "0") in ("0", "false"): return False
-        return any(any(v is not None for v in oracles.effective(pb)[1]) for pb in c.pbs.values())
-    gap = set(c.name for c in cases if sparse_gap(c))
-    skip = {b: gap for b in backends if b != "dense"}
-    if gap: ctx.notes.append("%d cases (scale_cost with finite lower bounds) compared on the dense back end only" % len(gap))
+    skip = None
     for pcd in preconds:
-        res, mobs = spine.correspond(ctx, "%s_%s" % (name, pcd), text, precond=pcd, backends=backends, skip=(skip if pcd == "ruiz" else None))
+        res, mobs = spine.correspond(ctx, "%s_%s" % (name, pcd), text, precond=pcd, backends=backends)
         for b in backends:
             if b not in res: continue
             ok, diffs, obs = res[b]
